@@ -147,6 +147,13 @@ impl Family for C07 {
                 p.at.sort_by_key(|x| x.0);
             }
         }
+        // a quarter of the device-backed runs hands the adapter a byte stream that is already
+        // positioned at word 1..3 (a reader created over a stream that is not at offset 0)
+        if rng.chance(1, 4) {
+            if let Some(p) = backend.plan_mut() {
+                p.start_words = rng.usize_range(1, 3);
+            }
+        }
         let align_tail = rng.chance(1, 4);
         let mut ops = ops;
         if align_tail || rng.chance(1, 6) {
@@ -196,6 +203,7 @@ impl Family for C07 {
             ctx.probe("c07.no_slack_after_last_codeword");
         }
         let mut sim = RSim::new("C07", s.e, s.kind, &s.backend, &w.bytes);
+        ctx.probe_if(sim.pos > 0, "c07.reader_created_at_nonzero_offset");
         let wb = s.kind.word_bits();
         let len = sim.data_bits;
         let nwords = len / wb;
@@ -420,6 +428,7 @@ impl Family for C07 {
 
     fn required_probes(_t: Tier) -> Vec<&'static str> {
         vec![
+            "c07.reader_created_at_nonzero_offset",
             "scale.position_above_2^32",
             "scale.skip_2^32",
             "c07.seek_unaligned",
